@@ -885,6 +885,16 @@ Check C01_lifting_covered_rules : forall rs, (forall r, In r rs -> In r covered_
   forall d n orc b out, run_chunk d n orc b = out -> out <> OutFuel ->
   run_chunk d n orc (apply_rules rs b) = out.
 
+(** the same list without compute_expression: no axiom at all *)
+Theorem C01_lifting_covered_rules_nofold : forall rs, (forall r, In r rs -> In r covered_rules_nofold) ->
+  forall d n orc b out, run_chunk d n orc b = out -> out <> OutFuel ->
+  run_chunk d n orc (apply_rules rs b) = out.
+Proof. exact lifting_covered_rules_nofold. Qed.
+Print Assumptions C01_lifting_covered_rules_nofold.
+Check C01_lifting_covered_rules_nofold : forall rs, (forall r, In r rs -> In r covered_rules_nofold) ->
+  forall d n orc b out, run_chunk d n orc b = out -> out <> OutFuel ->
+  run_chunk d n orc (apply_rules rs b) = out.
+
 (** REFUTED for compute_expression as it is: a same-fuel statement.  [return 5 - 1e309] ([ex_neg_inf]) completes with 6 units of fuel; the folded [return (-1)/0] needs 8 *)
 Theorem C01_lifting_compute_same_fuel_refuted : rule_compute_expression ex_neg_inf =
     Block [] (Some (LReturn [EBinary BDiv (EUnary UMinus (xnum (BinNums.Zpos BinNums.xH))) (xnum BinNums.Z0)])) /\
